@@ -64,7 +64,10 @@ def gen_high(rng, idx):
         if off == DRIFT_MS:
             # a clock pinned exactly AT the drift limit cannot carry on with the next instant (C09: never more than the drift
             # ahead): when its counter values are used up before the wall clock moves 4 ms the actor stops - kept out of the cases
-            gets = max(0, min(gets, 65535 - ctr - 1))
+            # (a remote AT the limit whose counter is exhausted is refused altogether, so it pins nothing; at least one request
+            # always follows a registration: the harness collects the actor's log after the last reply)
+            ctr = rng.choice([65000, 65520, 65535])
+            if ctr < 65535: gets = min(gets, 65535 - ctr - 1)
         lines.append('clk-high %d %d %d %d' % (wall, ctr, off, gets))
         if off == DRIFT_MS: break
         if rng.chance(1, 2): wall += rng.choice([4, 1000])
